@@ -3,12 +3,12 @@ LEAN_MODULES = ["Sif.Props.C06"]
 EXTRACT = [{"group": "bridge", "passes": ["bridgefacts"]}]
 FAMILIES = [
     {"name": "bridge_credit", "family": "bridge_credit", "group": "bridge", "driver": "drv_bridge",
-     "n_quick": 300, "n_thorough": 1500, "seeds_thorough": 3},
+     "n_quick": 200, "n_thorough": 1500, "seeds_thorough": 3},
 ]
 RULE = ("bridge_credit: L1 claim histories on the real keepers (ValidateBasic + ethbridge.NewHandler on a cached context written only on success): "
         "conflicting contents, late and duplicate claims, claims after finalisation, zero / negative / 2^256-1 amounts, invalid denominations, "
-        "a conflicting claim completing a prophecy whose winning content is another one after the whitelisted bonded power shrank (whitelist removal, unbonding, loss of power of validators that never claimed; directed + a scenario generator for 1/4 of the histories), symbols differing in case only / by a leading c (usdc USDC Usdc cusdc cUSDC, eth ETH ceth …) credited in the same history, unspecified claim type, receivers that are module (blocked) accounts, other spellings of the Ethereum sender (another prophecy id), "
-        "interleaved with whitelist edits, staking changes, locks and burns, and restarts from the exported genesis in mid-history (real oracle + ethbridge ExportGenesis, codec JSON, InitGenesis on emptied stores, bank and staking carried; the credit ledger persists across them; judged by Spec.C06.restartCarries) followed by re-sent, late and conflicting claims; 4 repetitions per history. After every claim message the balances and "
+        "a conflicting claim completing a prophecy whose winning content is another one after the whitelisted bonded power shrank (whitelist removal, unbonding, loss of power of validators that never claimed; directed + a scenario generator for 1/4 of the histories), symbols differing in case only / by a leading c (usdc USDC Usdc cusdc cUSDC, eth ETH ceth …) credited in the same history, claim symbols of JSON-special text (quotes, backslashes, braces, commas, text reading as further amount / cosmos_receiver / claim_type members), judged against the contents of the accepted claim MESSAGES (creditFromMessages), unspecified claim type, receivers that are module (blocked) accounts, other spellings of the Ethereum sender (another prophecy id), "
+        "interleaved with whitelist edits, staking changes, locks and burns, and restarts from the exported genesis in mid-history (real oracle + ethbridge ExportGenesis, codec JSON, InitGenesis on emptied stores, bank and staking carried; the credit ledger persists across them; judged by Spec.C06.restartCarries) followed by re-sent, late and conflicting claims; 8 executions per history. After every claim message the balances and "
         "supply before/after are judged by Spec.C06.creditStep; a per-prophecy ledger of observed credits by Spec.C06.ledgerOK. "
         "non-trivial = distinct accepted message, or a chk line around a balance change")
 TRUSTED_BASE = [
